@@ -120,6 +120,7 @@ class ProgGen:
 		self.dead: list = []
 		self.fixed_calls: dict = {}
 		self.generics: dict = {}
+		self.exc: str | None = None
 
 	# ---- utils ------------------------------------------------------------------------
 	def on(self, flag: str) -> bool:
@@ -658,12 +659,12 @@ class ProgGen:
 			sub = cx.child(depth=cx.depth - 1)
 			body = self.block(sub, ind + '\t', r.randint(1, 2))
 			cond = self.wrap(self.e_bool(cx, T_BOOL, 1), 0)
-			raise_ = [f'{ind}\tif {cond}:', f"{ind}\t\traise RuntimeError('{self.pick(['a', 'bad', 'x1'])}')"]
+			raise_ = [f'{ind}\tif {cond}:', f"{ind}\t\traise {self.exc_class(cx)}('{self.pick(['a', 'bad', 'x1'])}')"]
 			handler = self.block(sub, ind + '\t', r.randint(1, 2))
-			return [f'{ind}try:'] + body + raise_ + body[:0] + [f'{ind}except RuntimeError as {self.fresh("ex")}:'] + handler
+			return [f'{ind}try:'] + body + raise_ + body[:0] + [f'{ind}except {self.exc_class(cx)} as {self.fresh("ex")}:'] + handler
 		if c == 29 and self.on('raise') and cx.depth > 0:
 			cx.tags.add('raise')
-			return [f'{ind}if {self.wrap(self.e_bool(cx, T_BOOL, 1), 0)}:', f"{ind}\traise RuntimeError('{self.pick(['e', 'oops'])}')"]
+			return [f'{ind}if {self.wrap(self.e_bool(cx, T_BOOL, 1), 0)}:', f"{ind}\traise {self.exc_class(cx)}('{self.pick(['e', 'oops'])}')"]
 		if c == 30 and self.on('destructure'):
 			tups = [n for n, t in cx.env.items() if t[0] == 'tuple']
 			if tups:
@@ -924,6 +925,13 @@ class ProgGen:
 		self.lines += [f'def {name}({sig}) -> {py_ty(ret)}:'] + body + ['']
 		self.funcs.append((name, params, ret, tags))
 
+	def exc_class(self, cx: Ctx) -> str:
+		"""RuntimeError or the program's own subclass of it (raise and except sites choose independently: a handler for the subclass lets the base through)."""
+		if self.exc and self.chance(0.5):
+			cx.tags.add('exception-subclass')
+			return self.exc
+		return 'RuntimeError'
+
 	def gen_generic(self) -> None:
 		"""A user generic class and a function that instantiates it with several type arguments in one body: attribute / method types
 		depend on the receiver's type arguments, not on the class alone."""
@@ -1093,6 +1101,9 @@ class ProgGen:
 		r = self.rnd
 		if self.chance(0.6) and self.on('enum'):
 			self.gen_enum()
+		if self.chance(0.3) and self.on('exception-subclass'):
+			self.exc = 'X0'
+			self.lines += ['class X0(RuntimeError):', '\tpass', '']
 		ncls = r.randint(0, 2) if self.on('class') else 0
 		for i in range(ncls):
 			base = None
@@ -1128,7 +1139,7 @@ class ProgGen:
 		tags = {f[0]: sorted(f[3]) for f in self.funcs}
 		alltags = set().union(*[f[3] for f in self.funcs]) | getattr(self, 'class_tags', set())
 		return {'source': source, 'calls': calls, 'fields': fields, 'shows': shows, 'func_tags': tags, 'tags': sorted(alltags),
-			'classes': sorted(self.classes), 'enums': sorted(self.enums)}
+			'classes': sorted(self.classes), 'enums': sorted(self.enums), 'exceptions': ({'X0': 'X0'} if self.exc else {}) | {'std::runtime_error': 'RuntimeError'}}
 
 
 def gen_program(rnd, exclude: set | None = None, size: int = 2) -> dict:
